@@ -17,6 +17,15 @@ CLAIMED = {
             'independent per-axis numpy.take / pointwise reference. Exhaustive within the stated bounds.',
             'numpy is trusted; dimension lengths <=3; domain predicate of DESIGN 3.1 decides which '
             'raises are acceptable', 'DESIGN.md section 4 C02'),
+    'C03': ('A', 'model_checking',
+            'bounded-exhaustive enumeration of (dimension subset x function assignment) on the real code vs numpy/numpy.ma lane-wise reference',
+            'Every file of the small universe x every non-empty dimension subset x every assignment of 7 named '
+            'reducers and 6 length-changing 1-D functions (plus the documented dict form) to those dimensions x '
+            'both keyword orders is executed on the real applyAlongDimensions and compared with an independent '
+            'one-primitive-per-axis numpy / numpy.ma reference (any application order accepted, loss of value on '
+            'store rejected); commuting reducers are additionally run in both orders and compared.',
+            'numpy / numpy.ma reductions are trusted; dimension lengths <=3; a 1-D function applied while another '
+            'axis is empty is out of domain (numpy.apply_along_axis is undefined there)', 'DESIGN.md section 4 C03'),
 }
 
 PENDING_REASON = ('check not built yet in this session; planned per DESIGN.md section 4 '
